@@ -158,3 +158,12 @@ def run_case(case, ctx):
             got = ctx.call("eval_scalar", f, t)
             ctx.check(ps.close(got, e, tol), "eval_scalar",
                       lambda: "f(%r)=%r expected %r" % (t, float(got), float(e)))
+
+
+def siblings(case):
+    """run right after the case in the same process (runner._run_one)"""
+    sibs = [ps.sibling_wider_edges(case)]
+    extra = ps.sibling_same_count_and_sum(case)
+    if extra is not None:
+        sibs.append(extra)
+    return sibs
